@@ -299,6 +299,25 @@ fn run<H: HashChain>(op: &str, a: &Args) -> Option<String> {
             };
             if ok { "ok" } else { "err" }.to_string()
         }
+        "rows" => {
+            // the complete parameter tables of this build for hash H: both lookup paths, every type code 0..=16
+            let mut out = String::from("ok");
+            for t in 0..=16u32 {
+                if let Some((id, w, p, ls)) = vh::lmots_row::<H>(t) {
+                    out.push_str(&format!(" ots-get:{}={}/{}/{}/{}", t, id, w, p, ls));
+                }
+                if let Some((id, w, p, ls)) = vh::lmots_row_from_u32::<H>(t) {
+                    out.push_str(&format!(" ots-from:{}={}/{}/{}/{}", t, id, w, p, ls));
+                }
+                if let Some((id, h)) = vh::lms_row::<H>(t) {
+                    out.push_str(&format!(" lms-get:{}={}/{}", t, id, h));
+                }
+                if let Some((id, h)) = vh::lms_row_from_u32::<H>(t) {
+                    out.push_str(&format!(" lms-from:{}={}/{}", t, id, h));
+                }
+            }
+            out
+        }
         "row" => {
             let t = a.num("type")? as u32;
             match a.s("kind")? {
